@@ -646,9 +646,10 @@ func oracles09(r *Run, t *c09Tree, flat []flat09, bo build09) {
 					cls = "C09/subjects/non-default-account"
 				}
 				if emptyNs && gotNs == "" {
-					// `namespace: ""` / `namespace: null` on the subject: the name-reference fixer keys its candidates
-					// by the literal namespace text and finds none; the subject keeps the empty namespace while the
-					// account moves (finding, theorem C09_subjects_empty_namespace_refuted)
+					// `namespace: ""` on the subject: before the repair R-nameref-empty-namespace-subject the
+					// name-reference fixer keyed its candidates by the literal namespace text and found none; the
+					// subject kept the empty namespace while the account moved. Fixed (findings.d/C09.txt `fixed:`),
+					// the class is no longer listed: a regression is an unlisted VIOLATION.
 					cls = "C09/subjects/empty-namespace-subject"
 				}
 				report("subjects", cls,
